@@ -54,6 +54,17 @@ impl Future for CopyFut {
         if READY[d] { DONE[d] = true; FAILED[d] = !RESULT_OK[d]; Poll::Ready(if RESULT_OK[d] { Ok(()) } else { Err(Error(10 + d as u8)) }) } else { Poll::Pending }
     } }
 }
+/// std::time::Duration as far as the block can use it
+#[derive(Clone, Copy, PartialEq, Eq, PartialOrd, Ord)] pub struct Duration { pub ms: u64 }
+impl Duration {
+    pub fn from_secs(s: u64) -> Duration { Duration { ms: s.saturating_mul(1000) } }
+    pub fn from_millis(ms: u64) -> Duration { Duration { ms } }
+    pub fn is_zero(&self) -> bool { self.ms == 0 }
+    pub fn as_secs(&self) -> u64 { self.ms / 1000 }
+    pub fn as_millis(&self) -> u128 { self.ms as u128 }
+}
+impl std::ops::Div<u32> for Duration { type Output = Duration; fn div(self, d: u32) -> Duration { assert!(d != 0, "Duration / 0 panics"); Duration { ms: self.ms / d as u64 } } }
+impl std::ops::Mul<u32> for Duration { type Output = Duration; fn mul(self, d: u32) -> Duration { Duration { ms: self.ms.saturating_mul(d as u64) } } }
 pub struct Interval(pub u8);
 pub struct Tick<'a>(pub &'a mut Interval);
 impl Interval { pub fn tick(&mut self) -> Tick<'_> { Tick(self) } }
@@ -66,7 +77,8 @@ impl<'a> Future for Tick<'a> {
 pub struct Arc<T>(pub T);
 impl<T> std::ops::Deref for Arc<T> { type Target = T; fn deref(&self) -> &T { &self.0 } }
 pub struct ContextStatistics(pub usize);
-impl ContextStatistics { pub fn is_timeout(&self, _t: u64) -> bool { unsafe { IDLE[self.0] } } }
+/// ContextStatistics::is_timeout (proved in Verus unit `timeouts`): never for period 0, otherwise "no data for longer than the period"
+impl ContextStatistics { pub fn is_timeout(&self, t: Duration) -> bool { unsafe { !t.is_zero() && IDLE[self.0] } } }
 #[derive(Clone, Copy, PartialEq, Eq)] pub enum ContextState { ClientShutdown, ServerShutdown }
 pub struct Context(pub u8);
 impl Context { pub fn set_state(&mut self, s: ContextState) { unsafe { STATES[N_STATES] = if s == ContextState::ClientShutdown { 1 } else { 2 }; N_STATES += 1; } } }
@@ -80,6 +92,13 @@ pub type ContextRef = Arc<RwLock>;
 // ------------------------------------------------------------------ tokio::select! stand-in (poll based)
 pub enum Sel3<A, B, C> { A(A), B(B), C(C), Disabled }
 pub mod tokio {
+    /// tokio::pin!: shadow the value by a pinned mutable reference to it
+    macro_rules! pin { ($x:ident) => { let mut $x = $x; #[allow(unused_mut)] let mut $x = unsafe { std::pin::Pin::new_unchecked(&mut $x) }; }; }
+    pub(crate) use pin;
+    pub mod time {
+        /// tokio::time::interval panics when the period is zero
+        pub fn interval(period: crate::Duration) -> crate::Interval { assert!(!period.is_zero(), "tokio::time::interval: `period` must be non-zero"); crate::Interval(0) }
+    }
     macro_rules! select {
         // branch collection: `pat = future, if guard => handler` / `pat = future => handler`, handlers are blocks or expressions
         (@acc [$($acc:tt)*] $p:pat = $f:expr, if $c:expr => $h:block , $($rest:tt)*) => { crate::tokio::select!(@acc [$($acc)* ($p, $f, $c, $h)] $($rest)*) };
@@ -118,12 +137,11 @@ pub mod tokio {
 
 async fn bidi_loop(
     ctx: ContextRef,
-    mut copy_c2s: Pin<&mut CopyFut>,
-    mut copy_s2c: Pin<&mut CopyFut>,
-    mut interval: Pin<&mut Interval>,
+    copy_c2s: CopyFut,
+    copy_s2c: CopyFut,
     server_stat: Arc<ContextStatistics>,
     client_stat: Arc<ContextStatistics>,
-    idle_timeout: u64,
+    idle_timeout: Duration,
 ) -> Result<(), Error> {
     include!("bidi_loop.in.rs");
     Ok(())
@@ -135,10 +153,9 @@ pub const ROUNDS: usize = 4;
 #[kani::proof]
 #[kani::unwind(6)]
 fn bidi_loop_idle_and_close() {
-    let mut a = std::pin::pin!(CopyFut(0));
-    let mut b = std::pin::pin!(CopyFut(1));
-    let mut iv = std::pin::pin!(Interval(0));
-    let mut task = std::pin::pin!(bidi_loop(Arc(RwLock(0)), a.as_mut(), b.as_mut(), iv.as_mut(), Arc(ContextStatistics(0)), Arc(ContextStatistics(1)), 600));
+    // the configured idle period: any value, 0 = never close for idleness
+    let idle_timeout = Duration::from_secs(kani::any());
+    let mut task = std::pin::pin!(bidi_loop(Arc(RwLock(0)), CopyFut(0), CopyFut(1), Arc(ContextStatistics(0)), Arc(ContextStatistics(1)), idle_timeout));
     let mut cx = TaskCx::from_waker(std::task::Waker::noop());
     let mut round = 0;
     let mut finished: Option<Result<(), Error>> = None;
@@ -146,6 +163,7 @@ fn bidi_loop_idle_and_close() {
         if finished.is_none() { unsafe {
             // what the outside world does during this scheduling round
             READY = kani::any(); RESULT_OK = kani::any(); IDLE = kani::any();
+            if idle_timeout.is_zero() { IDLE = [false; 2]; }   // period 0: no direction ever counts as idle
             if !TICK_DUE { TICK_DUE = kani::any(); }
             let (d0, d1) = (DONE[0], DONE[1]);
             POLLED_THIS_ROUND = [false; 2]; TICK_FOUND_IDLE = false; TICK_FOUND_BUSY = false;
